@@ -5,11 +5,13 @@ import (
 	"encoding/base64"
 	"encoding/json"
 	"fmt"
+	"io"
 	"net/http"
 	"os"
 	"path/filepath"
 	"sort"
 	"strings"
+	"syscall"
 
 	"github.com/tsenart/vegeta/v12/internal/simrt"
 	vegeta "github.com/tsenart/vegeta/v12/lib"
@@ -312,6 +314,18 @@ func runTargets(t *simrt.Tape, keep bool) simrt.Outcome {
 	if srcFails {
 		rd.ErrAt = t.Choose(file.Len())
 		r.stats["fault.source-read-error"]++
+		// the failure a cut-off archive, a decompressor or a length-limited reader reports looks like an end of
+		// file and is none
+		switch t.Choose(4) {
+		case 1:
+			rd.Err = io.ErrUnexpectedEOF
+			r.stats["fault.source-read-error.unexpected-eof"]++
+		case 2:
+			rd.Err = fmt.Errorf("read targets: %w", io.ErrUnexpectedEOF)
+			r.stats["fault.source-read-error.unexpected-eof"]++
+		case 3:
+			rd.Err = &os.PathError{Op: "read", Path: "targets.txt", Err: syscall.EIO}
+		}
 	}
 	var tr vegeta.Targeter
 	if format == "http" {
